@@ -103,6 +103,42 @@ pub fn bad_record(rng: &mut Rng, sw: &Swarm, b: Badness) -> Rec {
     let flags = if rng.bool() { AVP_M } else { rng.u8() & (AVP_M | AVP_RESERVED) };
     match b {
         Badness::Vendor => {
+            // one in four: vendor id, attribute type and payload size are
+            // successive constants of the code under test (a vendor-specific
+            // special case names exactly these three)
+            if rng.chance(1, 4) {
+                let d = crate::dict::dict();
+                let n = d.ints.len();
+                // half of the time one of the constants that look like an
+                // enterprise number (256 ..= 65535)
+                let big: Vec<usize> = (0..n).filter(|&k| (256..=65535).contains(&d.ints[k])).collect();
+                let i = if !big.is_empty() && rng.bool() { *rng.pick(&big) } else { rng.usize_below(n) };
+                let vendor = d.ints[i];
+                if vendor >= 1 && vendor <= 0xFFFF {
+                    let a0 = d.ints[(i + 1) % n];
+                    let a1 = d.ints[(i + 2) % n];
+                    let attr = match rng.below(6) {
+                        0 if a0 <= 0xFFFF && a1 <= 0xFFFF && a0 < a1 => rng.range(a0, a1) as u16,
+                        1 if a1 <= 0xFFFF => a1 as u16,
+                        // vendors number their own attributes from the bottom
+                        2 | 3 => rng.range(0, 4) as u16,
+                        _ if a0 <= 0xFFFF => a0 as u16,
+                        _ => rng.u16(),
+                    };
+                    let plen = match rng.below(4) {
+                        0 => d.ints[(i + 3) % n].min(40) as usize,
+                        1 => d.ints[(i + 2) % n].min(40) as usize,
+                        2 => 4,
+                        _ => rng.urange(0, 12),
+                    };
+                    let flags = if rng.chance(2, 3) { 0 } else { flags };
+                    return Rec {
+                        bytes: raw_record(flags, vendor as u16, attr, &rng.bytes(plen)),
+                        expect: Some(SpecErr::UnsupportedVendorId(vendor as u16)),
+                        terminal: false,
+                    };
+                }
+            }
             let vendor = match rng.below(3) {
                 0 => 1,
                 1 => 0xFFFF,
@@ -247,7 +283,17 @@ pub fn bad_record(rng: &mut Rng, sw: &Swarm, b: Badness) -> Rec {
             // the harness appends nothing after a terminal record, so any
             // declared payload longer than `have` runs past the body
             let len = 6 + have + rng.urange(1, 40);
-            let mut bytes = header(len.min(1023), flags, 0, rng.range(0, 41) as u16);
+            // the record that runs past the end may be a vendor-specific one
+            // (vendor id from the constants of the code under test)
+            let vendor = if rng.chance(1, 4) {
+                let d = crate::dict::dict();
+                let v = *rng.pick(&d.ints);
+                if v <= 0xFFFF { v as u16 } else { 0 }
+            } else {
+                0
+            };
+            let flags = if vendor != 0 && rng.bool() { 0 } else { flags };
+            let mut bytes = header(len.min(1023), flags, vendor, rng.range(0, 41) as u16);
             bytes.extend_from_slice(&rng.bytes(have));
             Rec {
                 bytes,
@@ -276,4 +322,33 @@ pub fn control_of(rng: &mut Rng, recs: &[&[u8]]) -> Vec<u8> {
     let l = b.len().min(65535) as u16;
     b[2..4].copy_from_slice(&l.to_be_bytes());
     b
+}
+
+
+/// Classify arbitrary octets as one AVP record by the specification: a good
+/// record, a record with one attributable error, or a terminal record
+/// (unusable length). `None` when they are more or less than one record.
+pub fn rec_from_bytes(bytes: &[u8]) -> Option<Rec> {
+    let r = spec_decode_avps(bytes);
+    if r.items.len() != 1 {
+        return None;
+    }
+    match &r.items[0] {
+        Ok(_) if r.covered == bytes.len() => Some(Rec {
+            bytes: bytes.to_vec(),
+            expect: None,
+            terminal: false,
+        }),
+        Err(SpecErr::InvalidAvpLength) => Some(Rec {
+            bytes: bytes.to_vec(),
+            expect: Some(SpecErr::InvalidAvpLength),
+            terminal: true,
+        }),
+        Err(e) if r.covered == bytes.len() => Some(Rec {
+            bytes: bytes.to_vec(),
+            expect: Some(*e),
+            terminal: false,
+        }),
+        _ => None,
+    }
 }
